@@ -141,7 +141,7 @@ fn check_bindings(src: &Sources, table: &[(String, (usize, usize), Binder)], st:
 }
 
 /// Negative mutation: rename a declaration so that its uses become unbound, or duplicate a declaration.
-fn negative(p: &Program, rng: &mut Rng) -> Option<(Program, &'static str, Vec<(usize, Target)>)> {
+pub fn negative(p: &Program, rng: &mut Rng) -> Option<(Program, &'static str, Vec<(usize, Target)>)> {
     let mut q = p.clone();
     if rng.chance(1, 4) {
         // a declaration named like a name exported by an unqualified import, with the `use` before or after it:
